@@ -42,6 +42,30 @@ pub fn all_dsts_start_with(n: usize, api: &[u8]) -> bool {
     ok
 }
 
+/// captured query `slot` equals `want` octet for octet (8 per iteration)
+pub fn cap_equals(slot: usize, want: &[u8]) -> bool {
+    let o = oracle();
+    let n = want.len();
+    if n > elliptic_curve::model::CAP_LEN {
+        return false;
+    }
+    let mut eq = true;
+    let mut i = 0;
+    while i + 8 <= n {
+        eq = eq
+            && o.cap[slot][i] == want[i] && o.cap[slot][i + 1] == want[i + 1]
+            && o.cap[slot][i + 2] == want[i + 2] && o.cap[slot][i + 3] == want[i + 3]
+            && o.cap[slot][i + 4] == want[i + 4] && o.cap[slot][i + 5] == want[i + 5]
+            && o.cap[slot][i + 6] == want[i + 6] && o.cap[slot][i + 7] == want[i + 7];
+        i += 8;
+    }
+    while i < n {
+        eq = eq && o.cap[slot][i] == want[i];
+        i += 1;
+    }
+    eq
+}
+
 pub fn msg_len<const MLEN0: usize>(i: usize) -> usize {
     (i + MLEN0) % 3
 }
@@ -63,6 +87,7 @@ where
     let sig = Signature::<BBSplus<CS>>::from_bytes(&sb).unwrap();
     tp!("kind", "sigflow"); tp!("suite", crate::h::c08::suite_tag::<CS>()); tp!("msgs", &msgs); tp!("hdr", hdr); tp!("msgs_none", MNONE);
     program(L + 1);
+    oracle().cap_idx = [L, usize::MAX];
     let r = sig.verify(&pk, if MNONE { None } else { Some(&msgs) }, hdr);
     let o = oracle();
     o.on = false;
@@ -79,6 +104,9 @@ where
     }
     let hl = hdr.map(|h| h.len()).unwrap_or(0);
     assert!(o.msg_len[L] == 96 + 8 + 48 * (L + 1) + api_len + 8 + hl && o.dst_len[L] == api_len + H2S_EXTRA, "C10: domain query has the wrong length");
+    // C10: the domain input is, octet for octet, PK || I2OSP(L,8) || Q1 || H_1..H_L || api_id || I2OSP(len(header),8) || header
+    let want_dom = rf::domain_bytes(&pk.0, &gens[0], &gens[1..], &rsuite::<CS>().api_id(false), hdr.unwrap_or(&[]));
+    assert!(cap_equals(0, &want_dom), "C10/C02: the octets hashed into the domain differ from the draft's domain input");
     let d = rf::scalar_of_state(o.ans[L]);
     let b_ref = rf::b_value(&stubs::p1_of::<CS>(), &gens[0], &gens[1..], &d, &ms);
     let good = sig.a() * (sk.0 + sig.e()) == b_ref;
@@ -115,6 +143,7 @@ where
     // e = 0 (probability 1/r) is a signature the decoder refuses by design (octets_to_signature)
     kani::assume(e_ref != Scalar::ZERO);
     tp!("kind", "sigflow"); tp!("suite", crate::h::c08::suite_tag::<CS>()); tp!("msgs", &msgs); tp!("hdr", hdr); tp!("msgs_none", MNONE);
+    o.cap_idx = [L, L + 1];
     let r = Signature::<BBSplus<CS>>::sign(if MNONE { None } else { Some(&msgs) }, &sk, &pk, hdr);
     o.on = false;
     kani::cover!(r.is_ok(), "sign succeeds");
@@ -125,6 +154,21 @@ where
     let hl = hdr.map(|h| h.len()).unwrap_or(0);
     assert!(o.msg_len[L] == 96 + 8 + 48 * (L + 1) + api_len + 8 + hl && o.dst_len[L] == api_len + H2S_EXTRA, "C10: domain query has the wrong length");
     assert!(o.msg_len[L + 1] == 32 * (L + 2) && o.dst_len[L + 1] == api_len + H2S_EXTRA, "C10: e query has the wrong length");
+    {
+        let api = rsuite::<CS>().api_id(false);
+        let want_dom = rf::domain_bytes(&pk.0, &gens[0], &gens[1..], &api, hdr.unwrap_or(&[]));
+        assert!(cap_equals(0, &want_dom), "C10: the octets hashed into the domain differ from the draft's domain input");
+        // e input: serialize((SK, msg_1..msg_L, domain))
+        let mut want_e = Vec::new();
+        want_e.extend_from_slice(&sk.0.to_be_bytes());
+        let mut i = 0;
+        while i < L {
+            want_e.extend_from_slice(&ms[i].to_be_bytes());
+            i += 1;
+        }
+        want_e.extend_from_slice(&d.to_be_bytes());
+        assert!(cap_equals(1, &want_e), "C10: the octets hashed into e differ from serialize((SK, msgs, domain))");
+    }
     let sig = r.unwrap();
     assert!(sig.e() == e_ref, "C01/C10: signature exponent is not the oracle's answer to the e query");
     assert!(sig.a() * (sk.0 + sig.e()) == b_ref, "C01: A * (sk + e) != B");
